@@ -206,7 +206,8 @@ def run_hypothesis(ctx: Ctx, strategy, body: Callable, n_examples: int, seed_val
                 raise Violation(state["best"]["signature"], state["best"]["detail"])
             return
         shrinking = state["first_fail_t"] is not None
-        saved = (ctx.evaluations, dict(ctx.classes)) if shrinking else None
+        saved = (ctx.evaluations, dict(ctx.classes), set(ctx.nontrivial), list(ctx.samples), ctx.judged,
+                 ctx.unspecified, dict(ctx.excluded_known)) if shrinking else None
         try:
             guarded(ctx, body, payload)
         except Violation as v:
@@ -230,8 +231,8 @@ def run_hypothesis(ctx: Ctx, strategy, body: Callable, n_examples: int, seed_val
             raise
         finally:
             if shrinking and saved is not None:
-                ctx.evaluations = saved[0]
-                ctx.classes = saved[1]
+                (ctx.evaluations, ctx.classes, ctx.nontrivial, ctx.samples, ctx.judged, ctx.unspecified,
+                 ctx.excluded_known) = saved
 
     test = given(strategy)(wrapped)
     test = settings(
